@@ -205,14 +205,15 @@ func VerifH_C08_compose() {
 func VerifH_C08_lzf_window() {
 	vrt.LoopBound(20000)
 	d := 8191 + vrt.Choice(4)
-	total := d + 16
+	const p0 = 5 // the compressor never references position 0
+	total := p0 + d + 16
 	data := make([]byte, total)
 	for i := range data {
 		data[i] = byte(2 + (i*7+i/5)%250) // filler without the letters 0/1
 	}
 	x, y, z := vrt.U8()&1, vrt.U8()&1, vrt.U8()&1
-	data[0], data[1], data[2] = x, y, z
-	data[d], data[d+1], data[d+2] = x, y, z
+	data[p0], data[p0+1], data[p0+2] = x, y, z
+	data[p0+d], data[p0+d+1], data[p0+d+2] = x, y, z
 	f := NewLZFFilter()
 	enc, err := f.Apply(data)
 	vrt.AssertNoErr(err, "lzf-apply-ok")
